@@ -14,7 +14,9 @@ def cache_profile(o, asis=False):
 
 # the monitors that decide C20 (mincount-float is a validation of the model's arithmetic convention and is
 # reported as an obligation, not as a verdict on the property)
-C20_MONITORS = {"removed-without-cleanup", "failed-cleanup-removed", "expired-early", "not-lru-first", "not-pruned-to-limit"}
+C20_MONITORS = {"removed-without-cleanup", "failed-cleanup-removed", "expired-early", "not-lru-first", "not-pruned-to-limit",
+                # a hit that is found leaves the stamp that expiry and eviction go by where it was: the use does not count
+                "use-not-recorded"}
 
 
 def _nontrivial(req, ans):
